@@ -38,11 +38,25 @@ def _note(ctx, key):
     d[key] = d.get(key, 0) + 1
 
 
+ARRAY_SHARE = 0.3  # share of the multiplications that are also evaluated with Arrays (operands reused)
+
+
 def _emit(ctx, stream, op, a, b=None, n=None):
     c = A.make_case(op, a, b, n)
     if c is not None:
         _note(ctx, stream)
-        return [c]
+        out = [c]
+        if op == "*" and b is not None:
+            arng = ctx.__dict__.setdefault("_arng", ctx.fresh_rng("C04-array-leg"))
+            if arng.random() < ARRAY_SHARE:
+                cs = A.array_cases(ctx, "mul", a, b, arng)
+                if cs:
+                    _note(ctx, "array:%s:%s" % (cs[0]["_t"]["arr"]["kind"], stream))
+                    d = ctx.notes.setdefault("array_leg", {})
+                    d["groups"] = d.get("groups", 0) + 1
+                    d["element_cases"] = d.get("element_cases", 0) + len(cs)
+                out += cs
+        return out
     _note(ctx, stream + ":operand-not-buildable")
     return []
 
@@ -117,11 +131,72 @@ def _fail(clause, c, **kw):
     return d
 
 
+def _oracle_array(c, ctx):
+    """The property on Arrays, real code only: the operand OBJECTS are built once and reused for a*b, b*a, a*b
+    again, (a*b)/b and a/b; every element is compared with the independent dimensional analysis of its leaves."""
+    t = c["_t"]
+    ar = t["arr"]
+    db = ctx.uni.db
+    sa, sb = A.arr_sems(t["a"], ar["mult"], db), A.arr_sems(t["b"], ar["mult"], db)
+    if any(x is None for x in sa + sb) or not all(x[2] for x in sa + sb):
+        return None  # the property speaks about scale-only units
+    if any(x[1] is None or not math.isfinite(x[1]) for x in sa + sb):
+        return None
+    import numpy
+
+    def fail(clause, **kw):
+        return _fail(clause, c, container=ar["kind"], element_multipliers=ar["mult"], **kw)
+
+    da, dbm = sa[0][0], sb[0][0]
+    ma, mb = [x[1] for x in sa], [x[1] for x in sb]
+    with numpy.errstate(all="ignore"):
+        try:
+            a, b = A.build_array(t["a"], ar["mult"], ar["kind"]), A.build_array(t["b"], ar["mult"], ar["kind"])
+            a0, b0 = A.elems(a), A.elems(b)
+        except Exception:
+            return None
+        n = len(a0)
+
+        def check(label, res, want_d, want_m):
+            got_d = A.dims_of(res, db)
+            if got_d != want_d:
+                return fail(label + ": exponent per quantity type is the sum/difference", got=got_d, want=want_d,
+                            result=repr(res))
+            got = A.mags_of(res, db)
+            for i in range(n):
+                if math.isfinite(got[i]) and math.isfinite(want_m[i]) and not A.rel_close(got[i], want_m[i]):
+                    return fail(label + ": base magnitude of every element is the product/quotient of the operands' "
+                                "elements as they were built (operands reused)", element=i, got=got[i], want=want_m[i],
+                                a_values_now=A.elems(a), a_values_built=a0, b_values_now=A.elems(b), b_values_built=b0)
+            return None
+
+        try:
+            prod = [x * y for x, y in zip(ma, mb)]
+            r = a * b
+            f = (check("Array a*b", r, A.comb(da, dbm, 1), prod)
+                 or check("Array b*a", b * a, A.comb(da, dbm, 1), prod)
+                 or check("Array a*b evaluated a second time", a * b, A.comb(da, dbm, 1), prod))
+            if f:
+                return f
+            if all(y != 0.0 for y in b0) and all(y != 0.0 for y in mb):
+                f = (check("Array (a*b)/b", r / b, da, ma)
+                     or check("Array a/b", a / b, A.comb(da, dbm, -1), [x / y for x, y in zip(ma, mb)]))
+                if f:
+                    return f
+        except (ZeroDivisionError, OverflowError):
+            return None
+        except Exception as e:
+            return fail("Array operation on valid operands raised", error=repr(e))
+    return None
+
+
 def oracle(c, ctx):
     t = c["_t"]
     k = t["k"]
     if k not in ("*", "/", "//", "^"):
         return None
+    if t.get("arr"):
+        return _oracle_array(c, ctx)
     db = ctx.uni.db
     sa = A.sem(t["a"], db)
     sb = A.sem(t["b"], db) if t["b"] is not None else ({}, 1.0, True)
